@@ -190,7 +190,8 @@ def _config(case, debug):
     if dm == 'fixed':
         cfg['domain_map'] = lambda host: 'sub'
     elif dm == 'fromhost':
-        cfg['domain_map'] = lambda host: (host or '').split('.')[0]
+        # the name goes in front of PATH_INFO, which has to stay UTF-8 on the wire
+        cfg['domain_map'] = lambda host: (host or '').split('.')[0].encode('utf8').decode('latin1')
     return cfg
 
 
@@ -1440,7 +1441,7 @@ def shrink(case):
 
 
 def _pred_badrepr_json(case, what, m):
-    """F35 (until the fix: commit is in /repo): a handler failing with an exception whose repr() raises, JSON requested"""
+    """F38 (until the fix: commit is in /repo): a handler failing with an exception whose repr() raises, JSON requested"""
     return (case.get('t') == 'page' and bool(case.get('badrepr')) and case.get('kind') == 'crash'
             and (case.get('accept') or '').startswith('application/json'))
 
